@@ -525,6 +525,60 @@ theorem syncChunks_keeps_newer_chunks : Generated.C02.syncChunksKeepsNewerChunks
 /-- (fix 008ef8e) at the end of the last chunk the ranged iterator's position is where its chunk iterator stopped -/
 theorem advanceChunk_keeps_iterator_position : Generated.C02.advanceChunkKeepsIteratorPos = true := by decide
 
+/-! ## the repaired findings #85 and #86 -/
+
+/-- the four notifications of `cex_reordered_notification` — A = 0…299, C = 600…899, then B = 300…599 LATE, then
+D = 900…1199, ts = 1000 + position — through the chunk-index model `CIndex.onWrite` -/
+def reorderRun : CIndex.St :=
+  let w (s : CIndex.St) (a b : Nat) : CIndex.St := (CIndex.onWrite s a b 1 (1000 + a) (1000 + b)).1
+  w (w (w (w {} 0 299) 600 899) 300 599) 900 1199
+
+/-- **late_notification_is_skipped** (fix f6d29cf, was finding #85): obligations on the regenerated facts — `onWrite` never
+lowers `Recs` and leaves the tree alone for a notification whose last record is not beyond the last indexed one — and the
+former counterexample on the other branch: the late notification of B changes nothing (`Recs` stays 900, the tree's last
+point stays C's (1899, 899)), after D the index is the one of the history "A, C, D with B skipped", and
+`RANGE [1600:1610]` gets a window that contains 600…610. -/
+theorem late_notification_is_skipped :
+    Generated.C02.onWriteSkipsLateNotification = true ∧ Generated.C02.onWriteRecsNeverDecrease = true ∧
+    CIndex.points reorderRun 1 = "1000:0,1299:299,1899:899,2199:1199" ∧
+    (CIndex.findChk reorderRun 1).map (fun c => (c.recs, c.lastRec, c.minTs, c.maxTs)) = some (1200, 1199, 1000, 2199) ∧
+    window ⟨1000, 2199⟩ (some [⟨1000, 0⟩, ⟨1299, 299⟩, ⟨1899, 899⟩, ⟨2199, 1199⟩]) ⟨1600, 1610⟩ = (299, 899) := by
+  refine ⟨by decide, by decide, by decide, by decide, by decide⟩
+
+/-- **late_notification_skip_sound** — why ignoring the late notification is right, for every monotone stream: the index
+that was sound for the `a` records in front of a batch whose notification is still on the way (positions `a … it.p0.idx − 1`,
+stored but not announced) and then receives the NEXT batch `it`, is sound for every stored record up to `it.p1.idx` — the
+unannounced batch is covered like a batch the sparse index skipped. The repaired `onWrite` keeps exactly this index when the
+late notification arrives, so `window_complete` applies to it. -/
+theorem late_notification_skip_sound {tsOf : Nat → Int} {a : Nat} {pts : List Pt} (it : Iv) (hs : IndexSound tsOf a pts)
+    (hab : a ≤ it.p0.idx) (hle : it.p0.idx ≤ it.p1.idx) (hm : Monotone tsOf (it.p1.idx + 1)) (hb : BatchIn it tsOf)
+    (hlast : ∀ q, a ≤ q → q < it.p0.idx → (lastD pts).ts ≤ tsOf q) (he : pts = [] → it.p0.idx = 0) :
+    IndexSound tsOf (it.p1.idx + 1) (add pts it) :=
+  addInterval_preserves it (skip_preserves hs hab hlast) rfl hle rfl hb
+    (gapCovered_of_monotone pts it hm hb hle (Nat.lt_succ_self _)) he
+
+/-- a journal of one chunk with 5 records (ts = 100 + position) the index knows as "could not be read": hull [MaxInt64, 0],
+`Recs = 0` (what a failed `lightFill` — or an empty chunk — leaves) -/
+def unfilledSt : RangedIter.St :=
+  { cks := #[⟨10, 5⟩], tss := #[#[100, 101, 102, 103, 104]],
+    cidx := { chunks := [{ id := 1, minTs := CIndex.maxI64, maxTs := 0 }] } }
+
+/-- **unfilled_entry_is_refilled** (fix 719d554, was finding #86): obligation on the regenerated fact, and the former
+damage on the other branch: the next `syncChunks` gives the known-but-unfilled entry the hull of the chunk's first and last
+record and `Recs = count` (the entry `stale_entry_relight_sound` is about: sound on monotone data); a write that follows
+EXTENDS that hull instead of replacing it by the batch's own (fourth conjunct: what the write did to the unfilled entry).
+An entry that accounts for records (`Recs > 0`) is untouched. -/
+theorem unfilled_entry_is_refilled :
+    Generated.C02.syncChunksRefillsUnfilledEntries = true ∧
+    ((RangedIter.syncChunks unfilledSt).cidx.chunks.map (fun c => (c.id, c.minTs, c.maxTs, c.recs))) = [(1, 100, 104, 5)] ∧
+    ((CIndex.onWrite (RangedIter.syncChunks unfilledSt).cidx 5 9 1 2000 2004).1.chunks.map
+        (fun c => (c.minTs, c.maxTs, c.recs))) = [(100, 2004, 10)] ∧
+    ((CIndex.onWrite unfilledSt.cidx 5 9 1 2000 2004).1.chunks.map
+        (fun c => (c.minTs, c.maxTs, c.recs))) = [(2000, 2004, 10)] ∧
+    ((RangedIter.syncChunks { unfilledSt with cidx := { chunks := [{ id := 1, minTs := -5, maxTs := -1, recs := 5 }] } }).cidx.chunks.map
+        (fun c => (c.minTs, c.maxTs, c.recs))) = [(-5, -1, 5)] := by
+  refine ⟨by decide, by decide, by decide, by decide, by decide⟩
+
 /-! ## the headline: every monotone history of Write calls, whole partition -/
 
 /-- **range_eq_filter_calls** — C02 on monotone data, end to end at the Points level. For EVERY history of
@@ -605,7 +659,8 @@ theorem cex_skipped_batch_below :
     ¬ inWindow (window ⟨50, 200⟩ (some cexSkipPts) ⟨55, 55⟩) 305 ∧ ¬ ((lastD cexSkipPts).ts ≤ cexSkipTs 305) := by
   decide
 
-/-- Finding #85 (open; placeholder id): MONOTONE data, but the index notifications of two batches arrive in the other order
+/-- Finding #85 (fixed by f6d29cf — `late_notification_is_skipped`; this is what `add` makes of a late interval, which the
+repaired `onWrite` no longer hands to it): MONOTONE data, but the index notifications of two batches arrive in the other order
 than the batches were stored (concurrent writers; `Service.Write` notifies after the chunk's write lock is gone). Batch A =
 records 0…299 (ts 1000 + q), batch B = 300…599, batch C = 600…899, D = 900…1199 — all with ts = 1000 + q. Notifications
 arrive A, C, B, D: B's interval is merged behind C's point and the last point becomes (C's maximum, B's LAST RECORD);
